@@ -17,7 +17,8 @@ theorem epilogue_k (E : Env S) (s : St S) (nt : NT S Unit) (fr : Frame) (x : Rat
     (hk : FrK E s nt fr) (hpend : fr.pending = []) (hx : fr.cost.fin < x)
     (hne : ∀ e q, s.queueOf nt = e :: q → e.cost ≠ fr.cost) :
     WInv E (epilogue s nt fr) ∧ E4g (epilogue s nt fr) ∧ (∀ S', S' ≠ nt → Same4 s (epilogue s nt fr) S') ∧
-    FR E (epilogue s nt fr) nt ∧ IdxDone E (epilogue s nt fr) nt fr.ci ∧ Ext s (epilogue s nt fr) := by
+    FR E (epilogue s nt fr) nt ∧ IdxDone E (epilogue s nt fr) nt fr.ci ∧ Ext s (epilogue s nt fr) ∧
+    (∀ ci', Entered (epilogue s nt fr) nt ci' → ci' ≤ fr.ci) ∧ (∀ S' ci, (epilogue s nt fr).bankAt S' ci = s.bankAt S' ci) := by
   obtain ⟨sq, sb, sd, se, sc, scl, sclnt⟩ := epilogue_shape s nt fr
   obtain ⟨hc', hext⟩ := epilogue_cost E s nt fr hw.c
   obtain ⟨ho', _⟩ := epilogue_oi s nt fr x hw.o hk.fo hx hne
@@ -106,7 +107,7 @@ theorem epilogue_k (E : Env S) (s : St S) (nt : NT S Unit) (fr : Frame) (x : Rat
     · exact (hw.cr S').of_same (scl S' hS) (fun ci => hba S' ci)
   have hnil : s.clOf nt ≠ [] := by intro h0; rw [h0] at hci; simp at hci
   have heinv : EInv E s' := by
-    refine ⟨fun S' ci' h => ?_, fun q hq => hw.e.d1 q (by rw [← sd]; exact hq), fun S' ci' h => ?_, fun S' hne' P rl hr a ha => ?_, ?_⟩
+    refine ⟨fun S' ci' h => ?_, fun q hq => hw.e.d1 q (by rw [← sd]; exact hq), fun S' ci' h => ?_, ?_⟩
     · rw [hba]
       by_cases hS : S' = nt
       · subst hS
@@ -130,15 +131,6 @@ theorem epilogue_k (E : Env S) (s : St S) (nt : NT S Unit) (fr : Frame) (x : Rat
           · exact hold (Or.inr h)
           · omega
         · rw [se S' hS] at h; exact hold (Or.inr h)
-    · have hS0 : s.clOf S' ≠ [] := by
-        by_cases hS : S' = nt
-        · subst hS; exact hnil
-        · rw [scl S' hS] at hne'; exact hne'
-      have := hw.e.ini S' hS0 P rl hr a ha
-      intro h0
-      have hle : (s.clOf (ntOf a)).length ≤ (s'.clOf (ntOf a)).length := (hext (ntOf a)).length_le
-      rw [h0] at hle
-      exact this (List.length_eq_zero_iff.mp (by simpa using hle))
     · intro S' c rest p y hcl hy
       cases h0 : s.clOf S' with
       | nil =>
@@ -166,7 +158,17 @@ theorem epilogue_k (E : Env S) (s : St S) (nt : NT S Unit) (fr : Frame) (x : Rat
     · rw [se S' hS]
       rw [scl S' hS] at hlt
       exact h4 S' ci' hlt hlk
-  refine ⟨⟨hc', ho', heinv, hcr⟩, he4, fun S' hS => ⟨scl S' hS, sq S', sb S', se S' hS⟩, ⟨fun f kids y l rl hcl hy hl hle hr => ?_, fun hen => ?_, fun ci' hlk => ?_⟩, ?_, hext⟩
+  refine ⟨⟨hc', ho', heinv, hcr⟩, he4, fun S' hS => ⟨scl S' hS, sq S', sb S', se S' hS⟩, ⟨fun f kids y l rl hcl hy hl hle hr => ?_, fun hen => ?_, fun ci' hlk => ?_⟩, ?_, hext, fun ci' hen => ?_, hba⟩
+  rotate_right
+  · have hold : Entered s nt ci' → ci' ≤ fr.ci := fun h' => by have := hw.e.be nt ci' h'; have := hk.fo.1; omega
+    unfold Entered at hen
+    rw [sb, sc] at hen
+    rcases hen with h' | h'
+    · exact hold (Or.inl h')
+    · simp only [Bool.or_eq_true, Bool.and_eq_true, decide_eq_true_eq] at h'
+      rcases h' with h' | ⟨h', _⟩
+      · exact hold (Or.inr h')
+      · omega
   · cases hq : s.queueOf nt with
     | nil =>
       rw [hq] at sclnt
